@@ -576,3 +576,196 @@ Lemma RelM_pm_dispatch : forall f v, mtype_eqb (f_type f) TResend = false -> Rel
 Proof.
   intros f v Hf. unfold pm_dispatch. destruct (f_type f) eqn:Ht; try discriminate; relm.
 Qed.
+
+(* ------------------------------------------------------------------ operation-level step relation *)
+
+Record Step (w w' : world) : Prop := mkStep {
+  s_inv : Inv w';
+  s_mono : nout w <= nout w';
+  s_log : exists l, log w' = log w ++ l
+                    /\ (forall f, In f (writes l) -> original f = true -> nout w <= f_seq f < nout w');
+  s_base : base w' = base w;
+  s_past : past w' = past w;
+  s_ctor : ctor w' = ctor w
+}.
+
+Lemma Step_refl : forall w, Inv w -> Step w w.
+Proof.
+  intros w H. constructor; auto; try lia. exists []. rewrite app_nil_r. split; auto.
+  intros f Hf. cbn in Hf. contradiction.
+Qed.
+
+Lemma Step_trans : forall a b c, Step a b -> Step b c -> Step a c.
+Proof.
+  intros a b c [i1 m1 [l1 [L1 W1]] b1 p1 c1] [i2 m2 [l2 [L2 W2]] b2 p2 c2].
+  constructor; try congruence; try lia; auto.
+  exists (l1 ++ l2). rewrite L2, L1, app_assoc. split; [reflexivity|].
+  intros f Hf Ho. rewrite writes_app in Hf. apply in_app_or in Hf. destruct Hf as [Hf|Hf].
+  - specialize (W1 f Hf Ho). lia.
+  - specialize (W2 f Hf Ho). lia.
+Qed.
+
+Lemma Rel_Step : forall w w', Inv w -> Rel w w' -> Step w w'.
+Proof.
+  intros w w' (Ho & (Hs & Hr & Hp) & Ha) [n1 s1 i1 o1 m1 [l [L [C W]]] b1 p1 c1 a1].
+  constructor; auto.
+  - split; [exact o1|]. split; [|auto].
+    unfold In_ok. rewrite s1, i1, n1. auto.
+  - exists l. auto.
+Qed.
+
+Lemma Out_ok_ext : forall a b, nout a = nout b -> base a = base b -> log a = log b -> Out_ok a -> Out_ok b.
+Proof.
+  intros a b Hn Hb Hl [Hc [Hs [Hr Hp]]].
+  assert (Hdb : db a = db b) by (unfold db; rewrite Hb, Hl; reflexivity).
+  assert (Hj : jt a = jt b) by (unfold jt; rewrite Hdb; reflexivity).
+  unfold Out_ok, clean. rewrite <- Hj, <- Hdb, <- Hn. auto.
+Qed.
+
+(* the journal write of an accepted inbound frame numbered n, live counter already n + 1 *)
+Lemma persist_in_inv : forall W n r W', Out_ok W -> sin (jt W) + 1 = n -> (forall k, In k (rin (jt W)) -> k < n) ->
+  0 < n -> nin W = n + 1 -> AwOk W -> persist_in n W = (r, W') ->
+  Inv W' /\ r = inl tt /\ nout W' = nout W /\ log W' = log W ++ map EStmt (persist_in_prims n)
+  /\ base W' = base W /\ past W' = past W /\ ctor W' = ctor W /\ nin W' = n + 1 /\ st W' = st W.
+Proof.
+  intros W n r W' [Hc [Hs [Hr Hp]]] Hsin Hrin Hn Hnin Ha H.
+  assert (Hh : has_in (jt W) n = false) by (apply has_in_false; auto).
+  destruct (persist_in_ok n W Hh) as [He Hd].
+  set (W2 := with_log W (log W ++ map EStmt (persist_in_prims n))) in *.
+  rewrite He in H. inversion H; subst r W'. clear H. rename W2 into W'.
+  assert (Hj : jt W' = ins_in_tab (jt W) n) by (unfold jt at 1; rewrite Hd; reflexivity).
+  repeat split; try reflexivity; auto.
+  - unfold clean. rewrite Hd. reflexivity.
+  - rewrite Hj. exact Hs.
+  - rewrite Hj. exact Hr.
+  - rewrite Hj. cbn [sin ins_in_tab nin W' with_log]. lia.
+  - rewrite Hj. cbn [rin ins_in_tab nin W' with_log]. intros k Hk. apply in_app_or in Hk.
+    destruct Hk as [Hk|[Hk|[]]]; [apply Hrin in Hk; lia|lia].
+  - cbn [nin W' with_log]. lia.
+Qed.
+
+Lemma finalize_step : forall f w r w', mtype_eqb (f_type f) TSeqReset = false -> Inv w ->
+  finalize f w = (r, w') ->
+  Step w w' /\ nout w' = nout w /\ (exists l, log w' = log w ++ l /\ writes l = [] /\ count_both l = O).
+Proof.
+  intros f w r w' Hty HI H. pose proof HI as (Ho & (Hs & Hr & Hp) & Ha).
+  unfold finalize in H. rewrite Hty in H. munfold_in H.
+  destruct (f_seq f =? nin w) eqn:Heq.
+  2:{ cbn in H. inversion H; subst. split; [apply Step_refl; auto|]. split; auto.
+      exists []. rewrite app_nil_r. auto. }
+  assert (Hfn : f_seq f = nin w) by lia.
+  destruct (f_seq f <=? 0) eqn:Hle; [lia|].
+  cbn [st maxres nin nout rl dlv ctor base log past] in H.
+  assert (Hgen : forall W, nout W = nout w -> base W = base w -> log W = log w -> past W = past w -> ctor W = ctor w ->
+                 nin W = f_seq f + 1 -> AwOk W -> persist_in (f_seq f) W = (r, w') ->
+                 Step w w' /\ nout w' = nout w /\ (exists l, log w' = log w ++ l /\ writes l = [] /\ count_both l = O)).
+  { intros W Hn Hb Hl Hpa Hc Hni HaW HP.
+    assert (HoW : Out_ok W) by (eapply Out_ok_ext; [| | |exact Ho]; auto).
+    assert (HjW : jt W = jt w) by (unfold jt, db; rewrite Hb, Hl; reflexivity).
+    destruct (persist_in_inv W (f_seq f) r w' HoW) as (I' & _ & N' & L' & B' & P' & C' & _); auto.
+    - rewrite HjW. lia.
+    - rewrite HjW. intros k Hk. apply Hr in Hk. lia.
+    - lia.
+    - split; [|split].
+      + constructor; try congruence; try lia.
+        exists (map EStmt (persist_in_prims (f_seq f))). rewrite L', Hl. split; [reflexivity|].
+        rewrite writes_stmts. intros g Hg. contradiction.
+      + congruence.
+      + exists (map EStmt (persist_in_prims (f_seq f))). rewrite L', Hl. rewrite writes_stmts. auto. }
+  destruct (cstate_eqb (st w) Awaiting) eqn:Hst.
+  - assert (Hmx : 0 < maxres w). { apply Ha. destruct (st w); try discriminate; reflexivity. }
+    assert (Hmb : (0 <? maxres w) = true) by lia. rewrite Hmb in H.
+    destruct (maxres w <=? f_seq f).
+    + eapply Hgen; [| | | | | | |exact H]; try reflexivity. unfold AwOk. cbn. discriminate.
+    + eapply Hgen; [| | | | | | |exact H]; try reflexivity. unfold AwOk. cbn. auto.
+  - eapply Hgen; [| | | | | | |exact H]; try reflexivity. unfold AwOk. cbn. intro E. rewrite E in Hst. discriminate.
+Qed.
+
+Lemma Inv_Out : forall w, Inv w -> Out_ok w. Proof. intros w H; apply H. Qed.
+Lemma Inv_nin : forall w, Inv w -> 0 < nin w. Proof. intros w (_ & (_ & _ & H) & _); exact H. Qed.
+
+Lemma pm_plain_step : forall f w r w',
+  mtype_eqb (f_type f) TSeqReset = false -> mtype_eqb (f_type f) TResend = false -> Inv w ->
+  process_message f w = (r, w') -> Step w w'.
+Proof.
+  intros f w r w' Hs Hr HI H. unfold process_message in H.
+  cbv beta iota delta [bind get] in H.
+  destruct (too_low f w).
+  { apply Rel_Step; auto. eapply disconnect_rel; eauto using Inv_Out. }
+  unfold catch at 1 in H.
+  destruct (pm_head f w) as [h w1] eqn:Eh.
+  assert (R1 : Rel w w1) by (eapply RelM_pm_head; eauto using Inv_Out, Inv_nin).
+  destruct h as [[v|]|e]; try (inversion H; subst; apply Rel_Step; auto; fail).
+  unfold catch in H.
+  destruct (pm_dispatch f v w1) as [d w2] eqn:Ed.
+  assert (R2 : Rel w1 w2).
+  { eapply RelM_pm_dispatch; eauto; [apply R1|rewrite (r_nin _ _ R1); eauto using Inv_nin]. }
+  assert (S2 : Step w w2) by (apply Rel_Step; auto; eapply Rel_trans; eauto).
+  destruct v.
+  - destruct (finalize_step f w2 r w' Hs (s_inv _ _ S2) H) as [S3 _].
+    eapply Step_trans; eauto.
+  - unfold ret in H. inversion H; subst. exact S2.
+Qed.
+
+(* ------------------------------------------------------------------ inbound SequenceReset *)
+
+Lemma jt_set_world : forall w i o, jt (set_world w i o) = set_tab (jt w) i o.
+Proof. intros. unfold jt at 1. rewrite db_set_world. reflexivity. Qed.
+
+Lemma set_world_in_inv : forall w i, Out_ok w -> AwOk w -> 0 < i ->
+  Inv (set_world w i (nout w)) /\ (forall k, In k (rin (jt (set_world w i (nout w)))) -> k < i).
+Proof.
+  intros w i (Hc & Hs & Hr & Hp) Ha Hi.
+  assert (Hk : forall k, In k (rin (jt (set_world w i (nout w)))) -> k < i).
+  { rewrite jt_set_world. cbn [rin set_tab]. intros k Hk. apply filter_In in Hk. destruct Hk as [_ Hk]. lia. }
+  split; [|exact Hk].
+  split; [|split].
+  - unfold Out_ok, clean. rewrite db_set_world, jt_set_world. cbn [committed cur sout rout set_tab nout set_world].
+    repeat split; try lia. intros g Hg. apply filter_In in Hg. destruct Hg as [_ Hg]. lia.
+  - unfold In_ok. rewrite jt_set_world in *. cbn [sin set_tab nin set_world]. repeat split; try lia. exact Hk.
+  - exact Ha.
+Qed.
+
+Lemma set_world_out_inv : forall w o, clean w -> In_ok w -> AwOk w -> 0 < o ->
+  Inv (set_world w (nin w) o).
+Proof.
+  intros w o Hc (Hs & Hr & Hp) Ha Ho.
+  split; [|split].
+  - unfold Out_ok, clean. rewrite db_set_world, jt_set_world. cbn [committed cur sout rout set_tab nout set_world].
+    repeat split; try lia. intros g Hg. apply filter_In in Hg. destruct Hg as [_ Hg]. lia.
+  - unfold In_ok. rewrite jt_set_world. cbn [sin rin set_tab nin set_world]. repeat split; try lia.
+    intros k Hk. apply filter_In in Hk. destruct Hk as [Hk _]. auto.
+  - exact Ha.
+Qed.
+
+Lemma check_gaps_val : forall n w v w', check_gaps n w = (inl v, w') -> v = negb (nin w <? n).
+Proof.
+  intros n w v w' H. unfold check_gaps in H. munfold_in H.
+  destruct (nin w <? n); [|inversion H; reflexivity].
+  destruct (cstate_eqb (st w) Awaiting); [inversion H; reflexivity|].
+  match type of H with (let (_, _) := ?X in _) = _ => destruct X as [[[]|e] w1] end; inversion H; reflexivity.
+Qed.
+
+Definition seqreset_lag (f : frame) : bool :=
+  (0 <? f_seq f) && (f_seq f <=? f_a f) && (1 <? f_a f) && negb (f_seq f + 1 =? f_a f).
+
+(* a world that differs from w only by effects without transport writes and with the same outbound counter *)
+Lemma Step_quiet : forall w w' l, Inv w' -> nout w' = nout w -> log w' = log w ++ l -> writes l = [] ->
+  base w' = base w -> past w' = past w -> ctor w' = ctor w -> Step w w'.
+Proof.
+  intros w w' l HI Hn Hl Hw Hb Hp Hc. constructor; auto; try lia.
+  exists l. split; auto. rewrite Hw. intros f Hf. contradiction.
+Qed.
+
+Lemma process_seqreset_cases : forall f w, Inv w ->
+  let s := f_seq f in let n := f_a f in
+  process_seqreset f w =
+    if 0 <? s then
+      if 0 <? n then (inl tt, set_world (set_world w s (nout w)) n (nout w))
+      else (inr XAssert, set_world w s (nout w))
+    else (inr XAssert, w).
+Proof.
+  intros f w HI s n. unfold process_seqreset, bind. rewrite set_seq_num_in. fold s.
+  destruct (0 <? s); [|reflexivity].
+  rewrite set_seq_num_in. fold n. destruct (0 <? n); reflexivity.
+Qed.
